@@ -116,6 +116,18 @@ def gen(ctx, rng):
         cases.append(dict(axis=axis, n=n, begin=pick(), end=pick(), method=meth, op=str(rng.choice(["sum", "mean", "full"])),
                           dim=str(rng.choice(["time", "band"])), pix=pix, first=bool(rng.random() < 0.5), exhaustive=False,
                           dtype=str(rng.choice(["float64", "float32", "float32"]))))
+    # integer cubes whose cells fit their dtype while the window sums do not (int16 indices around 8000, int8, int32 near 1e9): a sum is
+    # the sum of the window's cells, not that sum wrapped into the input dtype
+    for k in range(90 if ctx.thorough else 36):
+        dt = ["int16", "int8", "int32", "int16"][k % 4]
+        lo, hi = dict(int16=(7000, 10001), int8=(90, 128), int32=(900000000, 1500000001))[dt]
+        L = int(rng.integers(4, 11))
+        axis = [10 * (i + 1) for i in range(L)]
+        n = int(rng.integers(2 if dt != "int16" else 4, L + 1)) if L >= 4 else L
+        n = min(n, L)
+        pix = [int(v) * (-1 if k % 7 == 3 else 1) for v in rng.integers(lo, hi, size=L)]
+        cases.append(dict(axis=axis, n=n, begin=[None, axis[0], axis[1]][k % 3], end=[None, axis[-1]][k % 2], method=None, op=["sum", "sum", "mean"][k % 3],
+                          dim=["time", "band"][(k // 3) % 2], pix=pix, first=bool((k // 6) % 2), exhaustive=False, dtype=dt))
     return cases
 
 
